@@ -415,13 +415,13 @@ Qed.
 Lemma filter_builtin_stable k : stable (filter_builtin k).
 Proof.
   intros v. destruct v; destruct k; cbn; auto.
-  destruct ((e =? 0)%Z && in_int64 m) eqn:E1; cbn.
-  - rewrite E1. cbn. auto.
+  destruct (e =? 0)%Z eqn:E0; cbn.
+  - destruct (in_int64 m) eqn:E1; cbn; rewrite E0, E1; cbn; auto.
   - destruct (f64_overflow m e) eqn:E2; cbn.
-    + rewrite E1, E2. cbn. auto.
+    + rewrite E0, E2. cbn. auto.
     + destruct (f64_round_int m e) as [i|] eqn:E3; cbn.
       * rewrite (f64_round_int_range m e i E3). cbn. auto.
-      * rewrite E1, E2, E3. cbn. auto.
+      * rewrite E0, E2, E3. cbn. auto.
 Qed.
 
 Definition map_filter_obj (e : ty) (kvs : list (bytes * json)) : fres :=
@@ -534,7 +534,7 @@ Definition arr_ty (e : ty) (d : nat) : ty := match d with O => e | S d' => TArr 
    int.  Nothing else. *)
 Inductive drops : ty -> json -> json -> Prop :=
 | D_refl t v : drops t v v
-| D_int m e i : f64_round_int m e = Some i -> drops (TB KInt) (JNum m e) (JNum i 0)
+| D_int m e i : e <> 0%Z -> f64_round_int m e = Some i -> drops (TB KInt) (JNum m e) (JNum i 0)
 | D_arr e d l l' : Forall2 (drops (arr_ty e d)) l l' -> drops (TArr e d) (JArr l) (JArr l')
 | D_map e kvs kvs' :
     Forall2 (fun a b => fst a = fst b /\ drops e (snd a) (snd b)) (dedup kvs) kvs' ->
@@ -568,9 +568,10 @@ Qed.
 Lemma filter_builtin_drops k v : fatal (filter_builtin k v) = false -> drops (TB k) v (out (filter_builtin k v)).
 Proof.
   destruct v; destruct k; cbn; try (intros; apply D_refl).
-  destruct ((e =? 0)%Z && in_int64 m); cbn; [intros; apply D_refl|].
+  destruct (e =? 0)%Z eqn:E0; cbn; [destruct (in_int64 m); cbn; intros; apply D_refl|].
   destruct (f64_overflow m e); cbn; [discriminate|].
-  destruct (f64_round_int m e) as [i|] eqn:E; cbn; [|discriminate]. intros _. apply D_int. exact E.
+  destruct (f64_round_int m e) as [i|] eqn:E; cbn; [|discriminate]. intros _. apply D_int; auto.
+  apply Z.eqb_neq. exact E0.
 Qed.
 
 Lemma arr_drops e fe :
@@ -661,7 +662,8 @@ Proof.
   - destruct k, k'; cbn [assignable_g kind_eqb orb andb]; try discriminate; intros _;
       destruct v; cbn; try discriminate; auto.
     + (* int <- int *)
-      destruct ((e =? 0)%Z && in_int64 m) eqn:E; cbn; [rewrite E; auto|discriminate].
+      destruct (e =? 0)%Z eqn:E0; cbn; [|discriminate].
+      destruct (in_int64 m) eqn:E1; cbn; [rewrite E0, E1; auto|discriminate].
     + (* float <- int *)
       destruct ((e =? 0)%Z && in_int64 m) eqn:E; cbn; [|discriminate]. intros _.
       apply andb_true_iff in E. destruct E as [E1 E2]. apply Z.eqb_eq in E1. subst.
